@@ -4,8 +4,9 @@ import MakoModel.Generated.ModFile
 `_compile_module_file`, `util.verify_directory` and `compat.load_module`.
 
 * the file system of the module directory is a map `P → Option File` (`P` = the module path or a
-  temp name); a file carries a `Content` (which source version it was generated from, the magic
-  number baked in, whether all bytes are there, which write produced it, its size) and an mtime;
+  temp name); a file carries a `Content` (which source version and which template *file* it was generated
+  from, the magic number baked in, whether all bytes are there, which write produced it, its size) and an
+  mtime in whole seconds (both sides of the staleness test are `[stat.ST_MTIME]`: `mtimesWholeSeconds`);
 * the writer is **the regenerated list** `Generated.ModFile.writerOps` (as read from the AST of
   `_compile_module_file`: `mkstemp ; write ; close ; rename` - since 626444f the write goes through a
   buffered file object inside a `with` block, the bytes are in the file for sure at its close, the move
@@ -14,12 +15,13 @@ import MakoModel.Generated.ModFile
   whether it completes, raises (Python unwinds; the only cleanup is the close of the `with` block,
   `closeOnRaise`; the temp file stays) or - for `write` - is short: code that writes until complete
   (`writeLoops`, the file object does) finishes the write, code that dropped `os.write`'s result carried on
-  with a truncated file; after the write group the cached bytecode of the module path is removed
-  (`dropsBytecode`, 0e8e31e);
+  with a truncated file; after the write group - built-in writer (`dropsBytecode`) or user-supplied
+  `module_writer` (`dropsBytecodeHook`) - the cached bytecode of the module path is removed (0e8e31e);
 * a crash is the truncation of the action sequence after `k` actions (`Plan.crash`);
 * `construct` is one `Template(filename=…, module_directory=…)`: staleness test, write group, load,
-  re-check (other magic number, or generated from another template file - b4d0d5f), second write group, load; the loader goes through CPython's bytecode cache,
-  which is keyed by (mtime second, size) of the module file;
+  re-check (other magic number, or generated from another template file - b4d0d5f), second write group,
+  load; the loader goes through CPython's bytecode cache, which is keyed by (mtime second, size) of the
+  module file;
 * histories (`HOp`) modify the source with any mtime, delete / replace the module file, move the
   clock, construct (with any plan of faults);
 * concurrency: writer processes are action lists (`Proc`), whole constructs are step machines (`CProc`, see
@@ -303,7 +305,9 @@ def Good (fs : FS) : Prop := ∀ f, fs .mod = some f → f.content.complete = tr
 
 def Plan.noShort (p : Plan) : Prop := Fate.short ∉ p.fates1 ∧ Fate.short ∉ p.fates2
 
-/-- the guard of the recorded finding F4: no short write (vacuous once the code writes until complete) -/
+/-- "no short write, or the code writes until complete": the helper lemmas are stated under this condition so that
+they also speak about code that drops `os.write`'s result; for the code as it is the first disjunct holds
+(obligation `writeLoops_on`) and the property theorems carry no such hypothesis -/
 def Plan.guard (p : Plan) : Prop := writeLoops = true ∨ p.noShort
 
 def HOp.ok : HOp → Prop
@@ -336,7 +340,8 @@ def PycCoherent (w : World) : Prop :=
   ∀ m s c f, w.pyc = some (m, s, c) → w.fs .mod = some f → m = f.mtime → s = f.content.size → c = f.content
 
 /-- a file written now (sizes of the plan) collides in (mtime, size) neither with the cache key nor with the
-file it replaces (guard of finding F-C15-2) -/
+file it replaces; only needed by the helper lemmas for code that does NOT remove the cached bytecode after a
+write (the code as it is does: obligations `dropsBytecode_on`, `dropsBytecodeHook_on`) -/
 def PycFresh (w : World) (p : Plan) : Prop :=
   (∀ m s c, w.pyc = some (m, s, c) → ¬ (m = w.clock ∧ (s = p.size1 ∨ s = p.size2))) ∧
   (w.pycOn = true → ∀ f, w.fs .mod = some f → ¬ (f.mtime = w.clock ∧ f.content.size = p.size2))
